@@ -36,6 +36,7 @@ class BNReplayer:
             bn.weight.data = np.array([qf(q) for q in consts["Gamma"]], dtype=self.dtype)
             bn.bias.data = np.array([qf(q) for q in consts["Beta"]], dtype=self.dtype)
         tag = "bn:mom=%s,affine=%s,track=%s" % ("none" if mom is None else "ema", consts["Affine"], consts["Track"])
+        root = nn.Sequential(nn.Sequential(bn)) if consts.get("Nested") else None
         pend = []           # (input tensor, output tensor) of every forward, for later backward passes
         for i, call in enumerate(hist):
             a = call["a"]
@@ -47,10 +48,8 @@ class BNReplayer:
                         gk = np.array([(-(j + 1) if j % 2 == 0 else (j + 1)) for j in range(1, yk.data.size + 1)], dtype=self.dtype).reshape(yk.data.shape)
                         xk.zero_()
                         yk.backward(sg.Tensor(gk))
-                    elif a == "train":
-                        bn.train()
-                    elif a == "eval":
-                        bn.eval()
+                    elif a in ("train", "eval"):
+                        getattr(root if call.get("on") == "root" else bn, a)()
                     elif a == "setstats":
                         bn.running_mean.data = np.array([qf(q) for q in call["rm"]], dtype=self.dtype)
                         bn.running_var.data = np.array([qf(q) for q in call["rv"]], dtype=self.dtype)
@@ -142,21 +141,26 @@ class DropReplayer:
     """The mask is the implementation's choice: at every training-mode forward the driver looks for
     the specification branch (mask m) whose output equals the implementation's."""
 
-    def __init__(self, sg):
+    def __init__(self, sg, dtype=np.float32, p_int=False):
         self.sg = sg
+        self.dtype = np.dtype(dtype)
+        self.p_int = p_int          # p = 0 / 1 given as Python ints
 
     def run(self, hist, expected_by_key, consts):
         sg, nn = self.sg, self.sg.nn
         div = []
         p = qf(consts["PDrop"])
+        if self.p_int and p == int(p):
+            p = int(p)
         layer = nn.Dropout(p=p)
+        root = nn.Sequential(nn.Sequential(layer)) if consts.get("Nested") else None
         tag = "drop:p=%s" % Fraction(consts["PDrop"][0], consts["PDrop"][1])
         path = []
         x = y = None
         for i, call in enumerate(hist):
             a = call["a"]
             if a in ("train", "eval"):
-                getattr(layer, a)()
+                getattr(root if call.get("on") == "root" else layer, a)()
                 path.append(call)
                 obs = expected_by_key(prefix_key(path))
                 if obs is None:
@@ -166,9 +170,12 @@ class DropReplayer:
                     break
             elif a == "fwd":
                 xv = consts["Inputs"][call["x"] - 1]
-                x = sg.Tensor(np.array(xv, dtype=np.float32), requires_grad=True)
+                x = sg.Tensor(np.array(xv, dtype=self.dtype), requires_grad=True)
                 with repo.quiet():
                     y = layer(x)
+                if y.data.dtype != self.dtype:
+                    div.append(("dtype", "%s:out-dtype:%s:%s" % (tag, self.dtype, "train" if layer.training else "eval"),
+                                "Dropout(p=%r) on %s input returned %s" % (p, self.dtype, y.data.dtype)))
                 got = y.data.astype(np.float64)
                 match = None
                 for m in itertools.product((0, 1), repeat=len(xv)):
@@ -195,7 +202,9 @@ class DropReplayer:
                     break
                 x.zero_()
                 with repo.quiet():
-                    y.backward(sg.Tensor(np.array(gv, dtype=np.float32)))
+                    y.backward(sg.Tensor(np.array(gv, dtype=self.dtype)))
+                if x.grad is not None and x.grad.data.dtype != self.dtype:
+                    div.append(("dtype", "%s:grad-dtype:%s" % (tag, self.dtype), "input gradient of Dropout(p=%r) on %s input is %s" % (p, self.dtype, x.grad.data.dtype)))
                 path.append(call)
                 obs = expected_by_key(prefix_key(path))
                 if obs is None:
